@@ -367,19 +367,28 @@ def rule_r3(prog, res) -> None:
     """count / dispatch flag agreement"""
     cnt = prog.func("AngularTree.count")
     res.touch(cnt)
-    cn = [c for c in calls_in(cnt) if isinstance(c.func, ast.Attribute) and c.func.attr == "count_neighbors"]
-    dp = [c for c in calls_in(cnt) if any(t.name == "dispatch_counts" for t in prog.resolve_call(cnt, c).funcs())]
-    if len(cn) != 1 or len(dp) != 1:
-        raise AnalysisError("C01.R3: count_neighbors / dispatch_counts call sites not found")
-    a = kwarg(cn[0], "cumulative")
-    b = dp[0].args[1] if len(dp[0].args) > 1 else kwarg(dp[0], "cumulative")
-    if a is None:
-        a = ast.Constant(True)  # scipy default
-    same = unparse(a) == unparse(b) and (not isinstance(a, ast.Name) or len(all_def_values(cnt.node, a.id)) == 1)
-    if same:
-        res.ok("C01.R3", res.site(cnt, "cumulative"), f"count_neighbors(cumulative={unparse(a)}) and dispatch_counts(..., {unparse(b)}) use the same single-assignment value")
+    from .. import symx
+
+    cpaths = symx.explore(prog, cnt, inline=symx.inline_private_helpers(prog, public={"dispatch_counts", "get_ang_bins", "parse_ang_limits", "get_counts_for_limits", "logarithmic_mid"}), skip_tests=("logger",))
+    pairs = []
+    for p in cpaths:
+        cns = p.calls("count_neighbors")
+        dps = [ev for ev in p.calls("dispatch_counts")]
+        if cns or dps:
+            pairs.append((p, cns, dps))
+    if not pairs or any(len(cns) != 1 or len(dps) != 1 for _, cns, dps in pairs):
+        raise AnalysisError("C01.R3: count_neighbors / dispatch_counts call sites not found (each counting path must run one KD-tree count and convert its output once)")
+    mismatch = None
+    for p, cns, dps in pairs:
+        a = kwarg(cns[0].expr, "cumulative") or ast.Constant(True)  # scipy default
+        b_ = dps[0].expr.args[1] if len(dps[0].expr.args) > 1 else kwarg(dps[0].expr, "cumulative")
+        if b_ is None or unparse(a) != unparse(b_):
+            mismatch = (dps[0], unparse(a), unparse(b_) if b_ is not None else "<default>")
+    cn = [pairs[0][1][0].expr]
+    if mismatch is None:
+        res.ok("C01.R3", res.site(cnt, "cumulative"), f"count_neighbors(cumulative=…) and dispatch_counts(…, …) receive the same value `{unparse(kwarg(cn[0], 'cumulative') or ast.Constant(True))[:40]}` on all {len(pairs)} counting paths")
     else:
-        res.violation("C01.R3", cnt, dp[0], f"count_neighbors runs with cumulative={unparse(a)} but its output is converted as if cumulative={unparse(b)}", key_extra="cumulative-mismatch")
+        res.violation("C01.R3", cnt, mismatch[0].node, f"count_neighbors runs with cumulative={mismatch[1][:40]} but its output is converted as if cumulative={mismatch[2][:40]}", key_extra="cumulative-mismatch")
     d = prog.func("dispatch_counts")
     res.touch(d)
     flag = d.param_names()[1]
